@@ -25,13 +25,15 @@ pub const INFO: PropInfo = PropInfo {
         "the date is covered for every day of [1970, 9999] in the thorough tier and by biased sampling in the quick tier",
         "the reference date formatter (civil-from-days) is cross-checked against Python's email.utils once per batch (tools/selftest.py)",
     ],
-    expected_probes: &["c20.leap_day", "c20.century_boundary", "c20.year_9999", "c20.epoch", "c20.len_power_of_ten", "c20.hex_power_of_sixteen", "c20.len_zero"],
+    expected_probes: &["c20.leap_day", "c20.century_boundary", "c20.year_9999", "c20.epoch", "c20.len_power_of_ten", "c20.hex_power_of_sixteen", "c20.len_zero", "c20.hex_multi_line_message"],
 };
 
 #[derive(Clone, Debug, Serialize, Deserialize)]
 pub enum Kind {
     Len(usize),
     Hex(usize),
+    /// an SSE message of `lines` lines of `n` bytes each: the chunk is lines * (6 + n + 1) + 1 bytes
+    HexLines(usize, usize),
 }
 #[derive(Clone, Debug, Serialize, Deserialize)]
 pub struct Probe {
@@ -76,7 +78,19 @@ fn gen_instant() -> u64 {
 
 fn gen_kind(thorough: bool) -> Kind {
     let big = if thorough { 1 } else { 0 };
-    match t::weighted(&[4, 3, 2, big, 3, 2, big]) {
+    match t::weighted(&[4, 3, 2, big, 3, 2, big, 3]) {
+        7 => {
+            // several lines: the framed size is what must be rendered, not the size of the text
+            let lines = t::range(2, 6) as usize;
+            let target = match t::draw(3) {
+                0 => 16usize.pow(t::range(1, 3) as u32) as i64 + t::range(0, 12) as i64 - 4,
+                1 => t::range(12, 400) as i64,
+                _ => t::range(12, 5000) as i64,
+            };
+            // choose n so that lines * (n + 7) + 1 is close to the target
+            let n = ((target - 1) / lines as i64 - 7).max(0) as usize;
+            Kind::HexLines(n, lines)
+        }
         0 => Kind::Len(t::range(0, 20_000) as usize),
         1 => {
             let p = 10usize.pow(t::range(0, 5) as u32);
@@ -141,6 +155,7 @@ pub fn run(cfg: &RunCfg, direct: Option<&serde_json::Value>) -> Outcome {
 #[derive(Deserialize)]
 struct N {
     n: usize,
+    l: Option<usize>,
 }
 
 fn execute(sc: &Scenario, out: &mut Outcome) {
@@ -149,7 +164,8 @@ fn execute(sc: &Scenario, out: &mut Outcome) {
     let app = Ohkami::new((
         "/len".GET(|Query(q): Query<N>| async move { Response::OK().with_text("x".repeat(q.n)) }),
         "/sse".GET(|Query(q): Query<N>| async move {
-            let ds: DataStream<String> = DataStream::new(move |mut s| async move { s.send("y".repeat(q.n)) });
+            let text = vec!["y".repeat(q.n); q.l.unwrap_or(1)].join("\n");
+            let ds: DataStream<String> = DataStream::new(move |mut s| async move { s.send(text) });
             ds
         }),
     ));
@@ -168,6 +184,7 @@ fn execute(sc: &Scenario, out: &mut Outcome) {
             let target = match p.kind {
                 Kind::Len(n) => format!("/len?n={n}"),
                 Kind::Hex(n) => format!("/sse?n={n}"),
+                Kind::HexLines(n, l) => format!("/sse?n={n}&l={l}"),
             };
             c.send(format!("GET {target} HTTP/1.1\r\nHost: s\r\n\r\n").as_bytes(), 0);
             let r = c.recv(false, DEFAULT_TIMEOUT).await;
@@ -243,9 +260,17 @@ fn execute(sc: &Scenario, out: &mut Outcome) {
                     out.probe("c20.len_power_of_ten");
                 }
             }
-            Kind::Hex(n) => {
-                // one message of n bytes without line breaks is one chunk of "data: " + n + "\n\n" = n + 8 bytes
-                let size = n + 8;
+            Kind::Hex(_) | Kind::HexLines(..) => {
+                // one message of n bytes without line breaks is one chunk of "data: " + n + "\n\n" = n + 8 bytes;
+                // l lines of n bytes are l * ("data: " + n + "\n") + "\n"
+                let size = match p.kind {
+                    Kind::Hex(n) => n + 8,
+                    Kind::HexLines(n, l) => l * (n + 7) + 1,
+                    _ => unreachable!(),
+                };
+                if matches!(p.kind, Kind::HexLines(..)) {
+                    out.probe("c20.hex_multi_line_message");
+                }
                 let raw = &resp.raw[resp.head_len.min(resp.raw.len())..];
                 let line_end = raw.windows(2).position(|w| w == b"\r\n").unwrap_or(0);
                 let line = String::from_utf8_lossy(&raw[..line_end]).into_owned();
